@@ -130,6 +130,16 @@ class Conv:
         if k == "crash": return "GCrash"
         raise ValueError(k)
 
+    def out_of_vocabulary(self):
+        """Outputs of the implementation that the model has no term for (an RPC with arguments the plugin never uses on the
+        unchanged tree, a response of unknown shape): [(step, output)]. Such a trace cannot be replayed through the model."""
+        bad = []
+        for k, st in enumerate(self.t["steps"]):
+            for o in st["out"]:
+                if o["o"] in ("resp", "call", "cancel") and self.out(o) == "GOther":
+                    bad.append((k, o))
+        return bad
+
     def init(self):
         out = []
         for it in self.t.get("init") or []:
